@@ -7,6 +7,10 @@ type nat =
 
 val option_map : ('a1 -> 'a2) -> 'a1 option -> 'a2 option
 
+type ('a, 'b) sum =
+| Inl of 'a
+| Inr of 'b
+
 val fst : ('a1 * 'a2) -> 'a1
 
 val snd : ('a1 * 'a2) -> 'a2
@@ -46,6 +50,8 @@ module Little :
 val add : nat -> nat -> nat
 
 val mul : nat -> nat -> nat
+
+val sub : nat -> nat -> nat
 
 val eqb : bool -> bool -> bool
 
@@ -119,6 +125,15 @@ module Pos :
   val to_uint : positive -> uint
  end
 
+module N :
+ sig
+  val add : n -> n -> n
+
+  val mul : n -> n -> n
+
+  val to_nat : n -> nat
+ end
+
 module Z :
  sig
   val opp : z -> z
@@ -141,6 +156,12 @@ type ascii =
 
 val eqb0 : ascii -> ascii -> bool
 
+val n_of_digits : bool list -> n
+
+val n_of_ascii : ascii -> n
+
+val nat_of_ascii : ascii -> nat
+
 type string =
 | EmptyString
 | String of ascii * string
@@ -148,6 +169,8 @@ type string =
 val eqb1 : string -> string -> bool
 
 val append : string -> string -> string
+
+val length0 : string -> nat
 
 val uint_of_char : ascii -> uint option -> uint option
 
@@ -189,7 +212,11 @@ val atom_of : sexp -> string
 
 val nat_of : sexp -> nat
 
+val bool_of : sexp -> bool
+
 val sopt : ('a1 -> sexp) -> 'a1 option -> sexp
+
+val opt_of : (sexp -> 'a1) -> sexp -> 'a1 option
 
 type 'v slot = { skey : string; sval : 'v; sdel : bool }
 
@@ -396,5 +423,109 @@ val setup_entry_of : sexp -> string * string list option
 val matrix_of : sexp -> matrix option
 
 val run1 : sexp -> sexp
+
+val is_ws : ascii -> bool
+
+val is_dimc : ascii -> bool
+
+val strip_prefix : string -> string -> string option
+
+val span : (ascii -> bool) -> string -> string * string
+
+val tok_open : string
+
+val tok_close : string
+
+val tok_word : string
+
+val match_tail : string -> nat option
+
+val match_token : string -> (string * nat) option
+
+val scan : (string -> string option) -> string -> nat -> string * string list
+
+val transform : (string -> string option) -> string -> string * string list
+
+val transform_result : (string -> string option) -> string -> string option
+
+val repl_of_perm : (string * string) list -> string -> string option
+
+val pair_of0 : sexp -> string * string
+
+val run2 : sexp -> sexp
+
+type sentinel =
+| ErrUnknownStepType
+| ErrStepTypeInference
+
+type kind =
+| KCommand
+| KWait
+| KInput
+| KTrigger
+| KGroup
+| KUnknown of sentinel
+
+val mem : string -> string list -> bool
+
+val families : (string list * kind) list
+
+val type_table : (string list * kind) list
+
+val scalar_table : (string list * kind) list
+
+val by_label : (string list * kind) list -> string -> kind -> kind
+
+val by_keys : (string list * kind) list -> string list -> kind -> kind
+
+val kind_by_type : string -> kind
+
+val kind_by_keys : string list -> kind
+
+val kind_of_scalar : string -> kind
+
+val kind_of_map : string option -> string list -> kind
+
+val kind_name : kind -> string
+
+val run3 : sexp -> sexp
+
+type keyinfo = { k_valid : bool; k_has_alg : bool; k_is_sig : bool;
+                 k_alg : string; k_kty : string }
+
+type verr =
+| EInvalidKey
+| EMissingAlg
+| EInvalidSigningAlg
+| EUnsupportedSigningAlg
+| EUnsupportedKeyType
+| EUnsupportedAlgForKeyType
+
+val valid_algs_for_kty : (string * string list) list
+
+val valid_signing_algs : string list
+
+val valid_ktys : string list
+
+val mem0 : string -> string list -> bool
+
+val lookup : string -> (string * string list) list -> string list
+
+val validate0 : keyinfo -> verr option
+
+type keyset = (string * keyinfo) list
+
+type lerr =
+| LNoKeyID
+| LNotFound
+| LInvalid of verr
+
+val find_kid : string -> nat -> keyset -> (nat * keyinfo) option
+
+val load : keyset -> string -> (nat * keyinfo, lerr) sum
+
+val key_of : sexp -> keyinfo
+
+val run4 : sexp -> sexp
 
 val dispatch : string -> sexp -> sexp
